@@ -134,6 +134,15 @@ def check_proofs(check):
     return res
 
 
+def run_coqchk(check):
+    """thorough tier: re-check the property file and everything it depends on with the independent checker"""
+    vo = check.theorem_file[:-2] + ".vo"
+    rc, out = sh("timeout 3000 coqchk -silent -o -Q . Verif %s" % vo, cwd=os.path.join(ROOT, "coq"), timeout=3100)
+    m = re.search(r"\* Axioms:(.*?)\n\s*\n\* Constants", out, re.S)
+    axioms = m.group(1).strip() if m else "?"
+    return {"rc": rc, "axioms": axioms, "summary": out[-600:]}
+
+
 # ---------------------------------------------------------------- harness
 def build_tools(streams):
     errs = []
@@ -352,6 +361,13 @@ def main(check, argv):
     }
     if pre_notes:
         cov["regenerated"] = pre_notes
+    if tier == "thorough" and not replay and proofs["build_ok"]:
+        cov["coqchk"] = run_coqchk(check)
+        if cov["coqchk"]["rc"] != 0 and not result["violation"]:
+            result["lines"].insert(0, "VIOLATION property=%s replay=replays/%s-unproved.json no-failing-input-found" % (pid, pid))
+            os.makedirs(os.path.join(ROOT, "replays"), exist_ok=True)
+            json.dump({"property": pid, "coqchk": cov["coqchk"]}, open(os.path.join(ROOT, "replays", "%s-unproved.json" % pid), "w"), indent=1)
+            result["violation"] = True
     if check.post:
         check.post(tier, seed, cov, result)
         violation = result["violation"]; lines = result["lines"]
